@@ -26,7 +26,7 @@ def RULE(tier):
     n = NMAX[tier]
     return (
         f"all DAGs on <= {n} nodes (2^(n(n-1)/2) edge sets) x node kinds per node (task / literal / alias (1 dep) / non-task list node) "
-        f"(n={n}: kinds restricted to task + list-node + literal roots) x external-key references (none, one task referencing 1 or 2 keys outside the graph) x key style (int, reversed int "
+        f"(n={n}: kinds restricted to task + list-node + literal roots; quick additionally: all 6-node DAGs x kinds with >= 3 list nodes of > 1 dependency) x external-key references (none, one task referencing 1 or 2 keys outside the graph) x key style (int, reversed int "
         "labelling, (str,int) tuples, str) x dict insertion order; plus every cyclic variant obtained by adding one back edge or self loop. "
         "Oracle: keys(result)==keys(graph), priorities pairwise distinct ints, prio[k]>prio[dep] for every in-graph dependency, "
         "return_stats=True gives the same priorities, cyclic => RuntimeError. non-trivial = >= 3 nodes and >= 2 edges."
@@ -40,6 +40,12 @@ def shards(tier):
         step = max(1, nmask // 32)
         for lo in range(0, nmask, step):
             out.append((n, lo, min(nmask, lo + step)))
+    if tier == "quick":
+        # the 6-node family in which the peeling of non-task leaf nodes goes >= 3 layers deep (found a defect only the thorough tier saw):
+        # all 6-node DAGs x kinds with >= 3 list nodes of > 1 dependency, int keys, no external references
+        nmask = 1 << 15
+        for lo in range(0, nmask, nmask // 32):
+            out.append((6, lo, lo + nmask // 32, "lists"))
     return out
 
 
@@ -88,7 +94,23 @@ def build(n, mask, kinds, style, rev, ext, extra_edge=None):
     return dict(items), K, dep_keys
 
 
+def cases_lists(shard):
+    n, lo, hi, _ = shard
+    for mask in range(lo, hi):
+        deps = deps_of(n, mask)
+        big = [i for i in range(n) if len(deps[i]) > 1]
+        if len(big) < 3:
+            continue
+        opts = ["td" if not d else "tl" for d in deps]
+        for kinds in itertools.product(*opts):
+            if sum(1 for i in big if kinds[i] == "l") >= 3:
+                yield ("dag", n, mask, "".join(kinds), "int", False, None, None)
+
+
 def cases_of(shard, tier):
+    if len(shard) == 4:
+        yield from cases_lists(shard)
+        return
     n, lo, hi = shard
     for mask in range(lo, hi):
         deps = deps_of(n, mask)
